@@ -43,7 +43,9 @@ Check ==
          IF ~IsPrefixOf(Ev.out, Toks(recs)) THEN "header-damage-foreign-record"
          ELSE IF Len(Ev.out) >= Ev.i THEN "header-damage-record-returned"
          ELSE IF Ev.out # exp THEN "header-damage-earlier-record-lost"
-         ELSE IF ~IsErr(Ev.end) THEN "header-damage-not-an-error"
+         \* a damaged header of the LAST record that runs into the end of the file is indistinguishable from a cut file (EOF allowed);
+         \* anywhere else a clean EOF would silently drop the genuine records behind it
+         ELSE IF ~IsErr(Ev.end) /\ Ev.i < Len(recs) THEN "header-damage-silently-ends-file"
          ELSE IF Ev.at[Ev.i] # "err" THEN "header-damage-random-access-returned-data"
          ELSE "ok"
     [] Ev.t = "fhdr" -> IF ~IsOpenErr(Ev.end) THEN "bad-file-header-accepted-sequential"
